@@ -152,10 +152,14 @@ theorem c05_hierarchical_io_order_free (L₁ L₂ : Layout (List Nat) Int) (ops 
     exec L₁ (hierP ops) = exec L₂ (hierP ops) :=
   c05_lookup_only_pair L₁ L₂ _
 
-/-- Every operation that the anchored Rust files apply to a `std` `HashMap`/`HashSet` binding is
-order-free (table regenerated from the sources by `checks/c05_scan.py` on every run).  An added
-`.iter()/.keys()/.values()/.drain()/for … in`/unrecognised use breaks this proof and the failing
-row names the file and line. -/
+/-- **No order exposure on the compile and execution path.**  Every operation that the scanned
+Rust files (trust-runtime: bytecode/**, harness/**, runtime/**, eval/**, stdlib/**, value/**,
+debug/**, memory.rs, io.rs, …; table regenerated from the sources by `checks/c05_scan.py` on every
+run) apply to a `std` `HashMap`/`HashSet` binding is order-free — an instance of the operations of
+`Prog`, to which `c05_lookup_only` applies — or is one of the hand-reviewed uses of
+`reviewedBenign`, whose order-independence is proved below on a model of that loop.  An added
+`.iter()/.keys()/.values()/.drain()/for … in`/unrecognised use breaks this proof; the check then
+names the file and line. -/
 theorem c05_no_order_exposure :
     ∀ u ∈ Gen.hashUses, u.hasher = .std →
       orderFree u.op = true ∨ ∃ r ∈ reviewedBenign, r.matchesUse u = true := by
@@ -211,7 +215,6 @@ example : NodupKeys [((1 : Nat), (10 : Nat)), (2, 20)] := by unfold NodupKeys; d
 /-- The table is not empty, and the hypothesis of `c05_no_order_exposure` is met by most rows. -/
 example : Gen.hashUses.length > 40 := by decide +kernel
 example : (Gen.hashUses.filter fun u => u.hasher == .std).length > 40 := by decide +kernel
-example : (Gen.hashUses.filter fun u => u.hasher == .std && !orderFree u.op).length = 2 := by decide +kernel
 
 /-- **Traces** (clause "same input and clock trace ⇒ identical states, outputs, faults, events at
 every cycle").  If one cycle does not depend on the environment (process, hash seed, layout, wall
